@@ -41,11 +41,11 @@ def Inv (s : St) : Prop :=
   -- accounting: every admitted, not yet decremented task is counted or has exactly one increment owed
   s.cI + s.sM + s.sL + s.pend = s.cD + s.c + s.r + s.d1 + s.d2 + s.hc + s.hr + s.hd1 + s.hd2 ∧
   s.mI = s.mD + s.r + s.d1 + s.hr + s.hd1 ∧
-  -- before any max delay expires there are no stale requests and nobody counted itself
-  (s.tmo = 0 → s.sM = 0 ∧ s.sL = 0 ∧ s.te = 0 ∧ s.hk ≠ 2) ∧
+  -- before any timer of a clearance wait fires there are no stale requests and nobody counted itself
+  (s.tmo = 0 → s.tz = 0 → s.sM = 0 ∧ s.sL = 0 ∧ s.te = 0 ∧ s.hk ≠ 2) ∧
   -- the limit, strengthened along the scheduler's program counter
-  (s.tmo = 0 → s.spc < 6 → s.c + s.r + s.d1 + s.d2 ≤ s.lim) ∧
-  (s.tmo = 0 → s.spc = 2 ∨ s.spc = 3 → s.c + s.r + s.d1 + s.d2 + 1 ≤ s.lim) ∧
+  (s.tmo = 0 → s.tz = 0 → s.spc < 6 → s.c + s.r + s.d1 + s.d2 ≤ s.lim) ∧
+  (s.tmo = 0 → s.tz = 0 → s.spc = 2 ∨ s.spc = 3 → s.c + s.r + s.d1 + s.d2 + 1 ≤ s.lim) ∧
   -- no lost wake-up: a scheduler that waits without a token has either seen a full house that is still
   -- full, or a finishing task is about to offer the token
   (s.spc = 5 → s.fin = 0 → s.cD + s.lim ≤ s.cI ∨ 0 < s.d3)
@@ -77,13 +77,15 @@ theorem inv_count (h : Inv s) (hs : step s .count = some s') : Inv s' := by inv_
 theorem inv_wakeToken (h : Inv s) (hs : step s .wakeToken = some s') : Inv s' := by inv_tac
 theorem inv_wakeTick (h : Inv s) (hs : step s .wakeTick = some s') : Inv s' := by inv_tac
 theorem inv_shutdown (h : Inv s) (hs : step s .shutdown = some s') : Inv s' := by inv_tac
-theorem inv_tmoEnq (p : Prio) (h : Inv s) (hs : step s (.tmoEnq p) = some s') : Inv s' := by
-  cases p <;> inv_tac
+theorem inv_tmoEnq (p : Prio) (z : Bool) (h : Inv s) (hs : step s (.tmoEnq p z) = some s') : Inv s' := by
+  cases p <;> cases z <;> inv_tac
 theorem inv_tmoInc (h : Inv s) (hs : step s .tmoInc = some s') : Inv s' := by inv_tac
-theorem inv_tmoWait (p : Prio) (h : Inv s) (hs : step s (.tmoWait p) = some s') : Inv s' := by
-  cases p <;> inv_tac
-theorem inv_tmoHeld (h : Inv s) (hs : step s .tmoHeld = some s') : Inv s' := by inv_tac
-theorem inv_tmoLate (h : Inv s) (hs : step s .tmoLate = some s') : Inv s' := by inv_tac
+theorem inv_tmoWait (p : Prio) (z : Bool) (h : Inv s) (hs : step s (.tmoWait p z) = some s') : Inv s' := by
+  cases p <;> cases z <;> inv_tac
+theorem inv_tmoHeld (z : Bool) (h : Inv s) (hs : step s (.tmoHeld z) = some s') : Inv s' := by
+  cases z <;> inv_tac
+theorem inv_tmoLate (z : Bool) (h : Inv s) (hs : step s (.tmoLate z) = some s') : Inv s' := by
+  cases z <;> inv_tac
 theorem inv_callNil (h : Inv s) (hs : step s .callNil = some s') : Inv s' := by inv_tac
 theorem inv_hcall (h : Inv s) (hs : step s .hcall = some s') : Inv s' := by inv_tac
 theorem inv_hinc (h : Inv s) (hs : step s .hinc = some s') : Inv s' := by inv_tac
@@ -112,11 +114,11 @@ theorem inv_step (a : Act) (h : Inv s) (hs : step s a = some s') : Inv s' := by
   | wakeToken => exact inv_wakeToken h hs
   | wakeTick => exact inv_wakeTick h hs
   | shutdown => exact inv_shutdown h hs
-  | tmoEnq p => exact inv_tmoEnq p h hs
+  | tmoEnq p z => exact inv_tmoEnq p z h hs
   | tmoInc => exact inv_tmoInc h hs
-  | tmoWait p => exact inv_tmoWait p h hs
-  | tmoHeld => exact inv_tmoHeld h hs
-  | tmoLate => exact inv_tmoLate h hs
+  | tmoWait p z => exact inv_tmoWait p z h hs
+  | tmoHeld z => exact inv_tmoHeld z h hs
+  | tmoLate z => exact inv_tmoLate z h hs
   | callNil => exact inv_callNil h hs
   | hcall => exact inv_hcall h hs
   | hinc => exact inv_hinc h hs
@@ -178,7 +180,7 @@ def DInv (d : DSt) : Prop :=
   (d.var ≠ 2 → d.flag = 0) ∧
   (d.flag = 0 → d.dones = 0) ∧ (d.flag = 1 → 1 ≤ d.dones)
 
-theorem dinv_new (cls var nilm : Nat) : DInv (DSt.new cls var nilm) := by
+theorem dinv_new (cls var nilm zd : Nat) : DInv (DSt.new cls var nilm zd) := by
   unfold DInv DSt.new; simp
 
 syntax "dinv_tac" : tactic
@@ -201,13 +203,13 @@ theorem dinv_hcall (h : DInv d) (hs : dstep d .hcall true = some d') : DInv d' :
 theorem dinv_hinc (h : DInv d) (hs : dstep d .hinc true = some d') : DInv d' := by dinv_tac
 theorem dinv_take (p : Prio) (b : Bool) (h : DInv d) (hs : dstep d (.take p b) true = some d') : DInv d' := by
   cases p <;> cases b <;> dinv_tac
-theorem dinv_tmoEnq (p : Prio) (h : DInv d) (hs : dstep d (.tmoEnq p) true = some d') : DInv d' := by
+theorem dinv_tmoEnq (p : Prio) (z : Bool) (h : DInv d) (hs : dstep d (.tmoEnq p z) true = some d') : DInv d' := by
   cases p <;> dinv_tac
 theorem dinv_tmoInc (h : DInv d) (hs : dstep d .tmoInc true = some d') : DInv d' := by dinv_tac
-theorem dinv_tmoWait (p : Prio) (h : DInv d) (hs : dstep d (.tmoWait p) true = some d') : DInv d' := by
+theorem dinv_tmoWait (p : Prio) (z : Bool) (h : DInv d) (hs : dstep d (.tmoWait p z) true = some d') : DInv d' := by
   cases p <;> dinv_tac
-theorem dinv_tmoHeld (h : DInv d) (hs : dstep d .tmoHeld true = some d') : DInv d' := by dinv_tac
-theorem dinv_tmoLate (h : DInv d) (hs : dstep d .tmoLate true = some d') : DInv d' := by dinv_tac
+theorem dinv_tmoHeld (z : Bool) (h : DInv d) (hs : dstep d (.tmoHeld z) true = some d') : DInv d' := by dinv_tac
+theorem dinv_tmoLate (z : Bool) (h : DInv d) (hs : dstep d (.tmoLate z) true = some d') : DInv d' := by dinv_tac
 theorem dinv_begin (b : Bool) (h : DInv d) (hs : dstep d (.begin b) true = some d') : DInv d' := by
   cases b <;> dinv_tac
 theorem dinv_fnRet (b : Bool) (o : Nat) (h : DInv d) (hs : dstep d (.fnRet b o) true = some d') : DInv d' := by
@@ -241,11 +243,11 @@ theorem dinv_step (a : Act) (me : Bool) (h : DInv d) (hs : dstep d a me = some d
     | wakeToken => exact (dinv_me_none _ hs (by simp)).elim
     | wakeTick => exact (dinv_me_none _ hs (by simp)).elim
     | shutdown => exact (dinv_me_none _ hs (by simp)).elim
-    | tmoEnq p => exact dinv_tmoEnq p h hs
+    | tmoEnq p z => exact dinv_tmoEnq p z h hs
     | tmoInc => exact dinv_tmoInc h hs
-    | tmoWait p => exact dinv_tmoWait p h hs
-    | tmoHeld => exact dinv_tmoHeld h hs
-    | tmoLate => exact dinv_tmoLate h hs
+    | tmoWait p z => exact dinv_tmoWait p z h hs
+    | tmoHeld z => exact dinv_tmoHeld z h hs
+    | tmoLate z => exact dinv_tmoLate z h hs
     | callNil => exact dinv_callNil h hs
     | hcall => exact dinv_hcall h hs
     | hinc => exact dinv_hinc h hs
